@@ -2,20 +2,23 @@ import PycModel.Proofs.Pres
 /-!
 # Every production respects every `PrimOK` relation
 
-The walk over the productions is done by one tactic, `pres`, which peels binds, branches and
-matches and closes the leaves with the primitive lemmas or the hypothesis `hs` (every call
-through `self` respects `R`).
+The walk over the productions is done by one extensible tactic, `pres`, which peels binds,
+branches and matches and closes the leaves with the primitive lemmas, previously proved helper
+lemmas (registered with `macro_rules`) or the hypothesis `hs` (every call through `self`
+respects `R`).
 -/
 namespace PycModel
 
 variable {R : PState → PState → Prop}
 
-theorem Pres.ite {α} {c : Prop} [Decidable c] {t e : P α} (ht : Pres R t) (he : Pres R e) :
-    Pres R (if c then t else e) := by
-  split <;> assumption
+/-- every call through `self` respects `R` (the induction hypothesis of the fuel recursion) -/
+structure SelfOK (R : PState → PState → Prop) (self : Self) : Prop where
+  all : ∀ nt : NT, Pres R (self nt)
 
-/-- one step of the walk -/
-macro "pres_step" : tactic => `(tactic| first
+syntax "pres_leaf" : tactic
+syntax "pres_step" : tactic
+
+macro_rules | `(tactic| pres_leaf) => `(tactic| with_reducible first
   | assumption
   | exact Pres.pure ‹PrimOK _› _
   | exact Pres.parseError _ _
@@ -31,29 +34,233 @@ macro "pres_step" : tactic => `(tactic| first
   | exact Pres.readOnly ‹PrimOK _› (ReadOnly.isTypeInScope _)
   | exact Pres.readOnly ‹PrimOK _› ReadOnly.lexFileLoc
   | exact Pres.readOnly ‹PrimOK _› (ReadOnly.tokCoord _)
-  | exact Pres.readOnly ‹PrimOK _› (ReadOnly.attrOrCrash _ _)
-  | refine Pres.bind ‹PrimOK _› ?_ ?_
+  | exact Pres.readOnly ‹PrimOK _› (ReadOnly.attrOrCrash _ _))
+
+macro_rules | `(tactic| pres_step) => `(tactic| first
+  | pres_leaf
+  | with_reducible refine Pres.bind ‹PrimOK _› ?_ ?_
   | (intro _)
   | split
   | (dsimp only))
 
-macro "pres" : tactic => `(tactic| repeat pres_step)
+macro "pres" : tactic => `(tactic| repeat' pres_step)
+
+/-- register a proved lemma `name : PrimOK R → … → Pres R (f …)` as a leaf of the walk -/
+macro "register_pres " n:ident : command =>
+  `(macro_rules | `(tactic| pres_leaf) => `(tactic| with_reducible first
+      | exact $n ‹PrimOK _›
+      | exact $n ‹PrimOK _› _
+      | exact $n ‹PrimOK _› _ _
+      | exact $n ‹PrimOK _› _ _ _
+      | exact $n ‹PrimOK _› _ _ _ _
+      | exact $n ‹PrimOK _› _ _ _ _ _
+      | exact $n ‹PrimOK _› _ _ _ _ _ _))
+
+/-- register a production lemma `name : PrimOK R → (self) → SelfOK R self → … → Pres R (p self …)` -/
+macro "register_prod " n:ident : command =>
+  `(macro_rules | `(tactic| pres_leaf) => `(tactic| with_reducible first
+      | exact $n ‹PrimOK _› _ ‹SelfOK _ _›
+      | exact $n ‹PrimOK _› _ ‹SelfOK _ _› _
+      | exact $n ‹PrimOK _› _ ‹SelfOK _ _› _ _
+      | exact $n ‹PrimOK _› _ ‹SelfOK _ _› _ _ _))
 
 theorem Pres.peek (h : PrimOK R) : Pres R peek := h.peekK 1
+register_pres Pres.peek
 
 theorem Pres.peekType (h : PrimOK R) : Pres R peekType := by
-  unfold PycModel.peekType; have := Pres.peek h; pres
+  unfold PycModel.peekType; pres
+register_pres Pres.peekType
 
 theorem Pres.peekType2 (h : PrimOK R) : Pres R peekType2 := by
   unfold PycModel.peekType2; pres
+register_pres Pres.peekType2
 
 theorem Pres.advance (h : PrimOK R) : Pres R advance := by
   unfold PycModel.advance; pres
+register_pres Pres.advance
 
 theorem Pres.accept (h : PrimOK R) (k : String) : Pres R (PycModel.accept k) := by
-  unfold PycModel.accept; have := Pres.peek h; have := Pres.advance h; pres
+  unfold PycModel.accept; pres
+register_pres Pres.accept
 
 theorem Pres.expect (h : PrimOK R) (k : String) : Pres R (PycModel.expect k) := by
-  unfold PycModel.expect; have := Pres.advance h; pres
+  unfold PycModel.expect; pres
+register_pres Pres.expect
+
+theorem Pres.valCoord (h : PrimOK R) (v : Val) (site : String) : Pres R (PycModel.valCoord v site) := by
+  unfold PycModel.valCoord; pres
+register_pres Pres.valCoord
+
+theorem Pres.mapP (h : PrimOK R) {α β} (f : α → P β) (hf : ∀ a, Pres R (f a)) :
+    ∀ l : List α, Pres R (PycModel.mapP f l) := by
+  intro l
+  induction l with
+  | nil => unfold PycModel.mapP; pres
+  | cons x xs ih => unfold PycModel.mapP; have := hf x; pres
+
+macro_rules | `(tactic| pres_step) => `(tactic| with_reducible refine Pres.mapP ‹PrimOK _› _ ?_ _)
+
+/-! ### NT.lean helpers -/
+
+theorem Pres.andM (h : PrimOK R) (a b : P Bool) (ha : Pres R a) (hb : Pres R b) : Pres R (andM a b) := by
+  unfold PycModel.andM; pres
+theorem Pres.orM (h : PrimOK R) (a b : P Bool) (ha : Pres R a) (hb : Pres R b) : Pres R (orM a b) := by
+  unfold PycModel.orM; pres
+theorem Pres.peekIs (h : PrimOK R) (k : String) : Pres R (peekIs k) := by
+  unfold PycModel.peekIs; pres
+register_pres Pres.peekIs
+theorem Pres.peek2Is (h : PrimOK R) (k : String) : Pres R (peek2Is k) := by
+  unfold PycModel.peek2Is; pres
+register_pres Pres.peek2Is
+theorem Pres.startsDeclaration (h : PrimOK R) : Pres R startsDeclaration := by
+  unfold PycModel.startsDeclaration; pres
+register_pres Pres.startsDeclaration
+theorem Pres.startsExpression (h : PrimOK R) : Pres R startsExpression := by
+  unfold PycModel.startsExpression; pres
+register_pres Pres.startsExpression
+theorem Pres.startsStatement (h : PrimOK R) : Pres R startsStatement := by
+  unfold PycModel.startsStatement; pres
+register_pres Pres.startsStatement
+theorem Pres.startsDeclarator (h : PrimOK R) (b : Bool) : Pres R (startsDeclarator b) := by
+  unfold PycModel.startsDeclarator; pres
+register_pres Pres.startsDeclarator
+theorem Pres.startsDirectAbstractDeclarator (h : PrimOK R) : Pres R startsDirectAbstractDeclarator := by
+  unfold PycModel.startsDirectAbstractDeclarator; pres
+register_pres Pres.startsDirectAbstractDeclarator
+
+macro_rules | `(tactic| pres_step) => `(tactic| with_reducible first
+  | (refine Pres.andM ‹PrimOK _› _ _ ?_ ?_)
+  | (refine Pres.orM ‹PrimOK _› _ _ ?_ ?_))
+
+/-! ### Core.lean helpers -/
+
+theorem Pres.typeModifyDecl (h : PrimOK R) (d m : Val) : Pres R (typeModifyDecl d m) := by
+  unfold PycModel.typeModifyDecl; pres
+register_pres Pres.typeModifyDecl
+
+theorem Pres.fixDeclNameType (h : PrimOK R) (d : Val) (tn : List Val) : Pres R (fixDeclNameType d tn) := by
+  unfold PycModel.fixDeclNameType
+  pres
+register_pres Pres.fixDeclNameType
+
+theorem Pres.fixAtomicOnce (h : PrimOK R) (d : Val) : Pres R (fixAtomicOnce d) := by
+  unfold PycModel.fixAtomicOnce; pres
+register_pres Pres.fixAtomicOnce
+
+theorem Pres.fixAtomicLoop (h : PrimOK R) : ∀ (fuel : Nat) (d : Val), Pres R (fixAtomicLoop fuel d) := by
+  intro fuel
+  induction fuel with
+  | zero => intro d; unfold PycModel.fixAtomicLoop; pres
+  | succ f ih => intro d; unfold PycModel.fixAtomicLoop; pres; exact ih _
+register_pres Pres.fixAtomicLoop
+
+theorem Pres.fixAtomicSpecifiers (h : PrimOK R) (d : Val) : Pres R (fixAtomicSpecifiers d) := by
+  unfold PycModel.fixAtomicSpecifiers; pres
+register_pres Pres.fixAtomicSpecifiers
+
+theorem Pres.extractNestedCase (h : PrimOK R) : ∀ (fuel : Nat) (c : Val), Pres R (extractNestedCase fuel c) := by
+  intro fuel
+  induction fuel with
+  | zero => intro c; unfold PycModel.extractNestedCase; pres
+  | succ f ih => intro c; unfold PycModel.extractNestedCase; pres; exact ih _
+register_pres Pres.extractNestedCase
+
+theorem Pres.appendToLast (h : PrimOK R) (items : List Val) (c : Val) : Pres R (appendToLast items c) := by
+  unfold PycModel.appendToLast; pres
+register_pres Pres.appendToLast
+
+theorem Pres.fixSwitchLoop (h : PrimOK R) : ∀ (l acc : List Val) (b : Bool), Pres R (fixSwitchLoop l acc b) := by
+  intro l
+  induction l with
+  | nil => intro acc b; unfold PycModel.fixSwitchLoop; pres
+  | cons c r ih => intro acc b; unfold PycModel.fixSwitchLoop; pres; all_goals exact ih _ _
+register_pres Pres.fixSwitchLoop
+
+theorem Pres.fixSwitchCases (h : PrimOK R) (sw : Val) : Pres R (fixSwitchCases sw) := by
+  unfold PycModel.fixSwitchCases; pres
+register_pres Pres.fixSwitchCases
+
+macro_rules | `(tactic| pres_leaf) => `(tactic| with_reducible exact SelfOK.all ‹SelfOK _ _› _)
+
+/-! ### Expr.lean -/
+
+theorem Pres.coordOf (h : PrimOK R) (v : Val) : Pres R (coordOf v) := by
+  unfold PycModel.coordOf; pres
+register_pres Pres.coordOf
+theorem Pres.mkID (h : PrimOK R) (t : PTok) : Pres R (mkID t) := by
+  unfold PycModel.mkID; pres
+register_pres Pres.mkID
+theorem Pres.pConstant (h : PrimOK R) : Pres R pConstant := by
+  unfold PycModel.pConstant; pres
+register_pres Pres.pConstant
+theorem Pres.unifiedStrLoop (h : PrimOK R) : ∀ (fuel : Nat) (v : String), Pres R (unifiedStrLoop fuel v) := by
+  intro fuel
+  induction fuel with
+  | zero => intro v; unfold PycModel.unifiedStrLoop; pres
+  | succ f ih => intro v; unfold PycModel.unifiedStrLoop; pres; exact ih _
+register_pres Pres.unifiedStrLoop
+theorem Pres.pUnifiedString (h : PrimOK R) : Pres R pUnifiedString := by
+  unfold PycModel.pUnifiedString; pres
+register_pres Pres.pUnifiedString
+theorem Pres.unifiedWStrLoop (h : PrimOK R) : ∀ (fuel : Nat) (v : String), Pres R (unifiedWStrLoop fuel v) := by
+  intro fuel
+  induction fuel with
+  | zero => intro v; unfold PycModel.unifiedWStrLoop; pres
+  | succ f ih => intro v; unfold PycModel.unifiedWStrLoop; pres; exact ih _
+register_pres Pres.unifiedWStrLoop
+theorem Pres.pUnifiedWString (h : PrimOK R) : Pres R pUnifiedWString := by
+  unfold PycModel.pUnifiedWString; pres
+register_pres Pres.pUnifiedWString
+theorem Pres.pIdentifier (h : PrimOK R) : Pres R pIdentifier := by
+  unfold PycModel.pIdentifier; pres
+register_pres Pres.pIdentifier
+theorem Pres.pIdentifierOrTypeid (h : PrimOK R) : Pres R pIdentifierOrTypeid := by
+  unfold PycModel.pIdentifierOrTypeid; pres
+register_pres Pres.pIdentifierOrTypeid
+
+section Productions
+variable (h : PrimOK R) (self : Self) (hs : SelfOK R self)
+include h hs
+
+theorem Pres.pTryParenTypeName : Pres R (pTryParenTypeName self) := by
+  unfold PycModel.pTryParenTypeName; pres
+theorem Pres.pExpression : Pres R (pExpression self) := by
+  unfold PycModel.pExpression; pres
+theorem Pres.pExprListLoop (acc : List Val) : Pres R (pExprListLoop self acc) := by
+  unfold PycModel.pExprListLoop; pres
+theorem Pres.pAssignmentExpression : Pres R (pAssignmentExpression self) := by
+  unfold PycModel.pAssignmentExpression; pres
+theorem Pres.pConditionalExpression : Pres R (pConditionalExpression self) := by
+  unfold PycModel.pConditionalExpression; pres
+theorem Pres.pBinaryExpression (mp : Nat) (lhs : Option Val) : Pres R (pBinaryExpression self mp lhs) := by
+  unfold PycModel.pBinaryExpression; pres
+theorem Pres.pBinaryInner (p : Nat) (rhs : Val) : Pres R (pBinaryInner self p rhs) := by
+  unfold PycModel.pBinaryInner; pres
+theorem Pres.pCastExpression : Pres R (pCastExpression self) := by
+  unfold PycModel.pCastExpression; pres
+theorem Pres.pUnaryExpression : Pres R (pUnaryExpression self) := by
+  unfold PycModel.pUnaryExpression; pres
+theorem Pres.pPostfixExpression (ct : Option Val) : Pres R (pPostfixExpression self ct) := by
+  unfold PycModel.pPostfixExpression; pres
+theorem Pres.pPostfixLoop (e : Val) : Pres R (pPostfixLoop self e) := by
+  unfold PycModel.pPostfixLoop; pres
+theorem Pres.pArgListLoop (acc : List Val) : Pres R (pArgListLoop self acc) := by
+  unfold PycModel.pArgListLoop; pres
+theorem Pres.pPrimaryExpression : Pres R (pPrimaryExpression self) := by
+  unfold PycModel.pPrimaryExpression; pres
+theorem Pres.pOffsetofLoop (n : Val) : Pres R (pOffsetofLoop self n) := by
+  unfold PycModel.pOffsetofLoop; pres
+theorem Pres.pInitializer : Pres R (pInitializer self) := by
+  unfold PycModel.pInitializer; pres
+theorem Pres.pInitializerList : Pres R (pInitializerList self) := by
+  unfold PycModel.pInitializerList; pres
+theorem Pres.pInitListLoop (acc : List Val) : Pres R (pInitListLoop self acc) := by
+  unfold PycModel.pInitListLoop; pres
+theorem Pres.pInitializerItem : Pres R (pInitializerItem self) := by
+  unfold PycModel.pInitializerItem; pres
+theorem Pres.pDesignatorListLoop (acc : List Val) : Pres R (pDesignatorListLoop self acc) := by
+  unfold PycModel.pDesignatorListLoop; pres
+
+end Productions
 
 end PycModel
